@@ -314,6 +314,88 @@ class Result:
         return out
 
 
+def _samples_summary(p):
+    out = {"cls": type(p).__name__, "n": len(p.x)}
+    for k in ("x", "log_likelihood", "log_prior", "log_q"):
+        v = getattr(p, k, None)
+        out[k] = None if v is None else to_np(v)
+    for k in ("beta", "log_evidence", "log_evidence_error"):
+        v = getattr(p, k, None)
+        out[k] = None if v is None else float(to_np(v))
+    out["xp"] = xp_name(p.xp)
+    out["dtype"] = str(p.dtype)
+    return out
+
+
+def payload_summary(blob: bytes) -> dict:
+    """Semantic content of a checkpoint payload (pickled torch tensors are not
+    byte-stable across processes, so cross-process comparisons use this)."""
+    st = pickle.loads(blob)
+    out = {k: st.get(k) for k in ("sampler", "iteration", "meta", "parameters", "config", "rng_state", "sampler_kwargs")}
+    out["samples"] = _samples_summary(st["samples"])
+    h = st.get("history")
+    if h is not None:
+        hs = {}
+        for k in "beta ess ess_target eff_target log_norm_ratio log_norm_ratio_var mcmc_acceptance".split():
+            hs[k] = [float(to_np(v)) for v in getattr(h, k)]
+        hs["pops"] = [_samples_summary(p) for p in h.sample_history]
+        out["history"] = hs
+    return out
+
+
+def payload_digest(blob: bytes | None) -> str | None:
+    return None if blob is None else core.digest_of(payload_summary(blob))
+
+
+class FileSeam:
+    """Storage seam: observes every writable close of the run's HDF5 file (the
+    instant a checkpoint write becomes durable) by wrapping ``h5py.File.close``
+    in the simulator process only."""
+
+    current = None
+    _orig_close = None
+
+    def __init__(self, path, on_write):
+        self.path = os.path.abspath(path)
+        self.on_write = on_write
+        self.last = None
+        self.busy = False
+
+    @classmethod
+    def install(cls, seam):
+        import h5py
+
+        if cls._orig_close is None:
+            cls._orig_close = h5py.File.close
+
+            def _close(self_):
+                try:
+                    name = os.path.abspath(self_.filename) if self_.id.valid else None
+                    mode = self_.mode if name else None
+                except Exception:
+                    name, mode = None, None
+                cls._orig_close(self_)
+                cur = cls.current
+                if cur is not None and not cur.busy and name == cur.path and mode not in (None, "r"):
+                    cur.busy = True
+                    try:
+                        fb = read_file_checkpoint(cur.path)
+                        if fb is not None and fb != cur.last:
+                            cur.last = fb
+                            cur.on_write(fb)
+                    finally:
+                        cur.busy = False
+
+            h5py.File.close = _close
+        prev = cls.current
+        cls.current = seam
+        return prev
+
+    @classmethod
+    def restore(cls, prev):
+        cls.current = prev
+
+
 def read_file_checkpoint(path) -> bytes | None:
     """The bytes of /checkpoint/state in a file, or None (plain h5py)."""
     import h5py
@@ -364,6 +446,7 @@ def run_process(
     resume: tuple | None = None,  # (route, payload) route in bytes|dict|path|resume_from_file
     stop_after: int | None = None,
     audit_file: bool = False,
+    initial_file_payload: bytes | None = None,
     record_kernel: bool = False,
     probe_fn=None,
     choice_hook=None,
@@ -401,6 +484,22 @@ def run_process(
     seam.probe_fn = probe_fn
     prev_seam = _install_seam(seam, scn.get("kernel"))
 
+    def _on_file_write(fb):
+        st = pickle.loads(fb)
+        res.payloads.append((st.get("iteration"), (st.get("meta") or {}).get("beta"), fb))
+        trace.log(
+            "ckpt",
+            via="file",
+            iteration=st.get("iteration"),
+            beta=(st.get("meta") or {}).get("beta"),
+            nbytes=len(fb),
+            sem=payload_digest(fb)[:16],
+        )
+
+    fseam = FileSeam(file_path, _on_file_write)
+    fseam.last = initial_file_payload
+    prev_fseam = FileSeam.install(fseam if scn["checkpoint"]["mode"] in ("path", "auto") else None)
+
     if scn["xp"] == "torch" or scn["flow"]["backend"] == "zuko":
         import torch
 
@@ -422,6 +521,7 @@ def run_process(
     ck = scn["checkpoint"]
     sampler_name = scn["sampler"]
     A = None
+    cur = {"sampler": None}
     try:
         with entropy_seam(int(scn["seeds"]["entropy"]) + 1000 * proc_no, trace) as es:
             try:
@@ -452,38 +552,28 @@ def run_process(
                         nbytes=len(b),
                     )
 
-                seen = {"bytes": None}
-
-                def _poll(kind, samples, val):
-                    s = A.sampler
-                    if s is None:
+                def _poll(kind):
+                    # in-run audit: at every likelihood call the file holds exactly
+                    # (byte for byte) the payload the sampler last acknowledged
+                    s = cur["sampler"] or A.sampler
+                    if s is None or kind != "like":
                         return
                     b = s.last_checkpoint_bytes
-                    if b is not None and b is not seen["bytes"]:
-                        seen["bytes"] = b
-                        st = s.last_checkpoint_state
-                        res.payloads.append((st.get("iteration"), st.get("meta", {}).get("beta"), b))
-                        trace.log(
-                            "ckpt",
-                            via="file",
-                            iteration=st.get("iteration"),
-                            beta=st.get("meta", {}).get("beta"),
-                            nbytes=len(b),
-                            sha=core.digest_of(b)[:16],
+                    if b is None:
+                        b = initial_file_payload
+                    fb = read_file_checkpoint(file_path)
+                    if fb != b:
+                        res.file_audit_failures.append(
+                            {
+                                "at": f"like@{model.n_like_calls}",
+                                "file_len": None if fb is None else len(fb),
+                                "ack_len": None if b is None else len(b),
+                                "stale_suffix": bool(fb is not None and b is not None and len(fb) > len(b) and fb[: len(b)] == b),
+                            }
                         )
-                    if audit_file and kind == "like":
-                        fb = read_file_checkpoint(file_path)
-                        if fb != b:
-                            res.file_audit_failures.append(
-                                {
-                                    "at": f"like@{model.n_like_calls}",
-                                    "file_len": None if fb is None else len(fb),
-                                    "ack_len": None if b is None else len(b),
-                                }
-                            )
 
-                if ck["mode"] in ("path", "auto"):
-                    model.listeners.append(_poll)
+                if ck["mode"] in ("path", "auto") and audit_file:
+                    model.pre_listeners.append(_poll)
 
                 # ---------------- sampling call ----------------
                 skw = copy.deepcopy(scn["sample_kwargs"])
@@ -536,7 +626,7 @@ def run_process(
                     if user_rng is not None and rng_route == "ctor" and is_smc and sampler_name != "emcee_smc":
                         ctor_kw["rng"] = user_rng
                     smp = A.init_sampler(sampler_name, **call_kw, **ctor_kw)
-                    A._sampler = smp
+                    cur["sampler"] = smp
                     kw = dict(skw)
                     if user_rng is not None and rng_route == "sample" and sampler_name != "importance":
                         if sampler_name != "emcee_smc":
@@ -570,26 +660,14 @@ def run_process(
             res.entropy_requests = es.requests
     finally:
         _restore_seam(prev_seam)
+        FileSeam.restore(prev_fseam)
 
-    smp = None if A is None else A.sampler
+    smp = None if A is None else (cur["sampler"] or A.sampler)
     res.sampler = smp
     if smp is not None:
         res.history = smp.history
         res.last_checkpoint_bytes = smp.last_checkpoint_bytes
         res.n_like_reported = smp.n_likelihood_evaluations
-        if ck["mode"] in ("path", "auto") and smp.last_checkpoint_bytes is not None:
-            b = smp.last_checkpoint_bytes
-            if not res.payloads or res.payloads[-1][2] is not b:
-                st = smp.last_checkpoint_state
-                res.payloads.append((st.get("iteration"), st.get("meta", {}).get("beta"), b))
-                trace.log(
-                    "ckpt",
-                    via="file",
-                    iteration=st.get("iteration"),
-                    beta=st.get("meta", {}).get("beta"),
-                    nbytes=len(b),
-                    sha=core.digest_of(b)[:16],
-                )
     if user_rng is not None:
         res.user_rng_draws = user_rng.n_draws
     trace.log("end", status=res.status, error=res.error)
